@@ -174,6 +174,17 @@ func c19Worker(c *core.Collector, x *Ctx) {
 			default:
 				name = []byte(strings.Repeat("../", 1+g.Intn(4)) + g.Str(1+g.Intn(6)))
 			}
+			if k > 0 && sweep < 0 && g.Chance(1, 5) {
+				// a twin: another path to the SAME last element as an earlier name of this session (collision handling in the saver)
+				prev := string(s.names[g.Intn(len(s.names))])
+				base := prev
+				if j := strings.LastIndexAny(prev, "/\\"); j >= 0 {
+					base = prev[j+1:]
+				}
+				if base != "" && len(base) < 30 {
+					name = []byte(core.Pick(g.Rand, []string{"../", "../../", "#/", "a/../../", "./", "/"}) + base)
+				}
+			}
 			token := append([]byte(fmt.Sprintf("TOKEN-%d-%d-%d-", x.Batch, i, k)), g.Bytes(24)...)
 			files = append(files, att.File{Name: name, Size: uint32(len(token)), Content: token})
 			s.names = append(s.names, name)
